@@ -17,6 +17,7 @@ import MxModel.Gen.KFarmDex
 import MxModel.Props.KFarm
 import MxModel.Props.KWeek
 import MxModel.Lemmas.FarmSpec
+import MxModel.Lemmas.KTactic
 
 namespace Mx.KFarmDex
 open Mx Mx.Gen Mx.Farm
@@ -30,12 +31,8 @@ theorem mint_per_block_rewards_eq (cur last perBlock : Nat) (produce : Bool) :
     KFarmDex.mint_per_block_rewards cur last perBlock produce =
       some (if last < cur then (if produce = false then 0 else perBlock * (cur - last)) else 0,
             if last < cur then cur else last) := by
-  by_cases h : last < cur
-  · have h1 : ¬ cur ≤ last := by omega
-    simp only [KFarmDex.mint_per_block_rewards, gt_iff_lt, if_pos h,
-      Mx.KFarm.calculate_per_block_rewards_eq, h1, false_or, Option.bind_eq_bind, Option.bind_some,
-      Option.pure_def, ite_self]
-  · simp only [KFarmDex.mint_per_block_rewards, gt_iff_lt, if_neg h, Option.pure_def]
+  k_defs [KFarmDex.mint_per_block_rewards, Mx.KFarm.calculate_per_block_rewards_eq]
+  cases produce <;> k_solve
 
 /-- on a model state: the source emits the model's `minted` and moves `last_reward_block_nonce`
     exactly as `generate` moves `lastBlock` -/
@@ -60,32 +57,8 @@ theorem take_reward_slice_eq (full acc epoch pct first : Nat) :
       if pct = 0 ∨ full * pct / 10000 = 0 then some (full, 0, acc)
       else if epoch < first ∨ full < full * pct / 10000 then none
       else some (full - full * pct / 10000, full * pct / 10000, acc + full * pct / 10000) := by
-  have h10 : ¬ (10000 = 0) := by omega
-  by_cases hp : pct = 0
-  · have h : pct = 0 ∨ full * pct / 10000 = 0 := Or.inl hp
-    simp only [KFarmDex.take_reward_slice, if_pos hp, if_pos h, Option.pure_def]
-  · by_cases hc : full * pct / 10000 = 0
-    · have h : pct = 0 ∨ full * pct / 10000 = 0 := Or.inr hc
-      have hc' : ¬ 0 < full * pct / 10000 := by omega
-      simp only [KFarmDex.take_reward_slice, if_neg hp, div?, if_neg h10, gt_iff_lt, if_neg hc',
-        if_pos h, Option.bind_eq_bind, Option.bind_some, Option.pure_def]
-      rw [hc]
-    · have h : ¬ (pct = 0 ∨ full * pct / 10000 = 0) := fun c => c.elim hp hc
-      have hc' : 0 < full * pct / 10000 := by omega
-      by_cases hw : first ≤ epoch
-      · by_cases hf : full * pct / 10000 ≤ full
-        · have h2 : ¬ (epoch < first ∨ full < full * pct / 10000) := by omega
-          simp only [KFarmDex.take_reward_slice, if_neg hp, div?, if_neg h10, gt_iff_lt, if_pos hc',
-            if_neg h, Mx.KWeek.get_current_week_eq, Weekly.weekOf, req, if_pos hw, sub?, if_pos hf,
-            if_neg h2, Option.bind_eq_bind, Option.bind_some, Option.pure_def]
-        · have h2 : epoch < first ∨ full < full * pct / 10000 := by omega
-          simp only [KFarmDex.take_reward_slice, if_neg hp, div?, if_neg h10, gt_iff_lt, if_pos hc',
-            if_neg h, Mx.KWeek.get_current_week_eq, Weekly.weekOf, req, if_pos hw, sub?, if_neg hf,
-            if_pos h2, Option.bind_eq_bind, Option.bind_some, Option.bind_none, Option.pure_def]
-      · have h2 : epoch < first ∨ full < full * pct / 10000 := by omega
-        simp only [KFarmDex.take_reward_slice, if_neg hp, div?, if_neg h10, gt_iff_lt, if_pos hc',
-          if_neg h, Mx.KWeek.get_current_week_eq, Weekly.weekOf, req, if_neg hw, if_pos h2,
-          Option.bind_eq_bind, Option.bind_some, Option.bind_none]
+  k_defs [KFarmDex.take_reward_slice, Mx.KWeek.get_current_week_eq, Weekly.weekOf]
+  k_solve
 
 /-- a successful model `takeRewardSlice` is a successful run of the source's `take_reward_slice`
     (for a percentage within 100 %): same cut, base part = full − cut, and the current week's
@@ -139,22 +112,8 @@ theorem generate_aggregated_rewards_eq (dsc supply rps reserve acc epoch block p
       if m = 0 then some (acc, last', rps, reserve)
       else (KFarmDex.take_reward_slice m acc epoch pct first).bind fun r =>
         some (r.2.2, last', rps + (if supply = 0 then 0 else r.1 * dsc / supply), reserve + m) := by
-  simp only [KFarmDex.generate_aggregated_rewards, hm, Option.bind_eq_bind, Option.bind_some,
-    gt_iff_lt, Option.pure_def]
-  by_cases h0 : m = 0
-  · have h0' : ¬ 0 < m := by omega
-    simp only [if_pos h0, if_neg h0']
-  · have h0' : 0 < m := by omega
-    simp only [if_neg h0, if_pos h0']
-    cases KFarmDex.take_reward_slice m acc epoch pct first with
-    | none => rfl
-    | some r =>
-      obtain ⟨base, cut, acc'⟩ := r
-      by_cases hs : supply = 0
-      · have hs' : ¬ supply ≠ 0 := fun c => c hs
-        simp only [Option.bind_some, if_neg hs', if_pos hs, Nat.add_zero]
-      · have hs' : supply ≠ 0 := hs
-        simp only [Option.bind_some, if_pos hs', if_neg hs, div?]
+  k_defs [KFarmDex.generate_aggregated_rewards, hm]
+  rcases KFarmDex.take_reward_slice m acc epoch pct first with _ | ⟨base, cut, acc'⟩ <;> k_solve
 
 /-- MAIN: a successful model `generate` is a successful run of the
     source's `Wrapper::generate_aggregated_rewards` on the same cache and storage cells: same new
@@ -228,8 +187,8 @@ theorem generate_aggregated_rewards_aborts (s : St) (c : Cache) (acc : Nat)
 theorem calculate_rewards_eq (amount rpsTok dsc rpsNow boosted : Nat) (hd : dsc ≠ 0) :
     KFarmDex.calculate_rewards amount rpsTok dsc rpsNow boosted =
       some (baseReward dsc rpsNow amount rpsTok + boosted) := by
-  simp only [KFarmDex.calculate_rewards, Mx.KFarm.calculate_rewards_some _ _ _ _ hd,
-    Option.bind_eq_bind, Option.bind_some, Option.pure_def]
+  k_defs [KFarmDex.calculate_rewards, Mx.KFarm.calculate_rewards_some _ _ _ _ hd]
+  k_solve
 
 /-- source `Wrapper::get_exit_penalty` IS the model's `exitPenalty`: aborts when the entering epoch
     lies in the future (checked `u64` subtraction), 0 after the minimum farming epochs, otherwise
@@ -238,46 +197,24 @@ theorem get_exit_penalty_eq (s : St) (amount entering : Nat) :
     KFarmDex.get_exit_penalty amount entering s.epoch s.minFarmingEpochs s.penaltyPct =
       exitPenalty s amount entering := by
   have hM : MAXPCT = 10000 := rfl
-  have h10 : ¬ (10000 = 0) := by omega
-  by_cases h : entering ≤ s.epoch
-  · by_cases hmin : s.minFarmingEpochs ≤ s.epoch - entering
-    · simp only [KFarmDex.get_exit_penalty, exitPenalty, sub?, if_pos h, ge_iff_le, if_pos hmin,
-        Option.bind_eq_bind, Option.bind_some, Option.pure_def]
-    · simp only [KFarmDex.get_exit_penalty, exitPenalty, hM, sub?, if_pos h, ge_iff_le, if_neg hmin,
-        div?, if_neg h10, Option.bind_eq_bind, Option.bind_some, Option.pure_def]
-  · simp only [KFarmDex.get_exit_penalty, exitPenalty, sub?, if_neg h, Option.bind_eq_bind,
-      Option.bind_none]
+  k_defs [KFarmDex.get_exit_penalty, exitPenalty, hM]
+  k_solve
 
 /-- source `Wrapper::apply_penalty` (the amount left after the penalty) IS the model's
     `exitPenalty` followed by the checked subtraction, as in `exitFarm` -/
 theorem apply_penalty_eq (s : St) (amount entering : Nat) :
     KFarmDex.apply_penalty amount entering s.epoch s.minFarmingEpochs s.penaltyPct =
       (exitPenalty s amount entering).bind fun pen => sub? amount pen := by
-  simp only [KFarmDex.apply_penalty, get_exit_penalty_eq, Option.bind_eq_bind, gt_iff_lt,
-    Option.pure_def]
-  cases exitPenalty s amount entering with
-  | none => rfl
-  | some pen =>
-    by_cases hp : 0 < pen
-    · simp only [Option.bind_some, if_pos hp]
-      cases sub? amount pen <;> rfl
-    · have h0 : pen = 0 := by omega
-      subst h0
-      simp only [Option.bind_some, if_neg hp, sub?, Nat.zero_le, if_true, Nat.sub_zero]
+  k_defs [KFarmDex.apply_penalty, get_exit_penalty_eq]
+  cases exitPenalty s amount entering <;> k_solve
 
 /-- source `claim_only_boosted_payment` in closed form: the boosted reward is taken off the STORED
     `reward_reserve` (checked), nothing is touched for a zero reward.  Result (reward, reward_reserve) -/
 theorem claim_only_boosted_payment_eq (r reserve : Nat) :
     KFarmDex.claim_only_boosted_payment r reserve =
       if r = 0 then some (0, reserve) else (sub? reserve r).map fun res => (r, res) := by
-  by_cases h : r = 0
-  · subst h
-    simp only [KFarmDex.claim_only_boosted_payment, gt_iff_lt, Nat.lt_irrefl, if_false, if_true,
-      Option.pure_def]
-  · have h' : 0 < r := by omega
-    simp only [KFarmDex.claim_only_boosted_payment, gt_iff_lt, if_pos h', if_neg h,
-      Option.bind_eq_bind, Option.pure_def]
-    cases sub? reserve r <;> rfl
+  k_defs [KFarmDex.claim_only_boosted_payment]
+  k_solve
 
 /-- the model's `claimOnlyBoostedPayment` is its boosted claim followed by the source's
     `claim_only_boosted_payment` on the stored reserve -/
